@@ -251,3 +251,21 @@ package multiparty
 //@   nilable
 //@   havoc s
 //@   ensures implies(isnil(err), n == announced(s))
+
+// ---- Lagrange coefficients (property C15): x_j / (x_j - x_i) needs x_j - x_i invertible modulo
+// ---- EVERY modulus of QP, i.e. the two public points distinct modulo every prime, not only as
+// ---- 64-bit integers.  distinctmod is a ghost predicate: nothing in the library establishes it.
+//@ ghost distinctmod(a, b) bool
+
+//@ afunc Combiner.lagrangeCoeff
+//@   trusted the arithmetic (subtraction, Fermat inverse, product per modulus) is not verified here; the contract carries its precondition
+//@   requires distinctmod(thisKey, thatKey)
+
+// bounded instance (one Q modulus, no P, at most two other parties): the obligation of interest, the
+// precondition of lagrangeCoeff at its call site, does not depend on those sizes
+//@ afunc NewCombiner
+//@   property C15
+//@   unwind 4
+//@   case len(params.ringQ.SubRings) == 1 ; set params.ringP = nil
+//@   requires len(others) <= 2
+//@   ensures true
